@@ -250,4 +250,55 @@ theorem mqttProxyValid_implies_no_panicIR (j : J) :
   | inl v => simp at this
   | inr v => simp
 
+/-! ## CircuitBreaker policy: the windows results are pushed into have at least one bucket
+
+`CountBasedWindow.Push` indexes `bucket[bucketIdx]`; a window built with size 0 makes it panic (index out of
+range) — an implicit panic site, not in the `panic(` table. The sizes are the translated arguments of the
+constructor calls (`cbWindowSizesIR`), the admission test of the half-open state is `cbHalfOpenAdmitIR`. -/
+
+/-- For every policy validation accepts: every window created in the closed state has ≥ 1 bucket; and whenever
+a call is admitted in half-open state (only then can a result be pushed into the half-open window —
+`cbPushSites`: RecordResult is the only pusher and it records results of the current state only), the
+half-open window has ≥ 1 bucket. `permittedNumberOfCallsInHalfOpenState: 0` is accepted and creates a 0-bucket
+window that never receives a result. -/
+theorem cb_pushed_windows_have_buckets (p : CBLibPolicy) (h : p.accepted = true) :
+    (∀ e ∈ cbWindowSizesIR p, e.1 = "Closed" → 1 ≤ e.2) ∧
+    (∀ n : Int, 0 ≤ n → cbHalfOpenAdmitIR p n = true → ∀ e ∈ cbWindowSizesIR p, e.1 = "HalfOpen" → 1 ≤ e.2) ∧
+    (∀ e ∈ cbWindowSizesIR p, e.1 = "Closed" ∨ e.1 = "HalfOpen") := by
+  unfold CBLibPolicy.accepted at h
+  simp only [Bool.and_eq_true, decide_eq_true_eq] at h
+  unfold cbWindowSizesIR cbHalfOpenAdmitIR
+  refine ⟨?_, ?_, ?_⟩
+  · intro e he hl
+    simp only [List.mem_cons, List.mem_nil_iff, or_false] at he
+    rcases he with rfl | rfl | rfl
+    · exact h.1.1
+    · exact h.1.1
+    · exact absurd hl (by simp)
+  · intro n hn ha e he hl
+    simp only [decide_eq_true_eq] at ha
+    simp only [List.mem_cons, List.mem_nil_iff, or_false] at he
+    rcases he with rfl | rfl | rfl
+    · exact absurd hl (by simp)
+    · exact absurd hl (by simp)
+    · show 1 ≤ p.permitted; omega
+  · intro e he
+    simp only [List.mem_cons, List.mem_nil_iff, or_false] at he
+    rcases he with rfl | rfl | rfl <;> simp
+
+theorem cb_push_sites_as_modelled : cbPushSites = 1 := by decide
+
+/-- the seeded variant (`NewCountBasedWindow(min(minimumNumberOfCalls, permitted))` in half-open state) breaks
+the statement: `minimumNumberOfCalls: 0` is accepted, a call is admitted, the window has no bucket -/
+theorem cb_min_sized_window_violates :
+    ∃ p : CBLibPolicy, p.accepted = true ∧ cbHalfOpenAdmitIR p 0 = true ∧ ¬ (1 ≤ min p.minCalls p.permitted) :=
+  ⟨⟨1, 10, 0⟩, by decide⟩
+
+/-- the judge's `cbValid` (document trees) implies `accepted` on the record `CreateWrapper` builds -/
+theorem cbValid_implies_accepted (o : Oracle) (p : J) : cbValid o p = true → (CBLibPolicy.ofJ p).accepted = true := by
+  unfold cbValid CBLibPolicy.accepted CBLibPolicy.ofJ
+  intro h
+  simp only [Bool.and_eq_true, decide_eq_true_eq] at h ⊢
+  exact ⟨⟨h.1.1.1.1.1.2, h.1.1.1.1.2⟩, h.1.1.1.2⟩
+
 end EgVerif.SpecGuards
